@@ -4,5 +4,6 @@ CONSTANTS
   Spacings = {1, 3}
   UnitExps = {8, 6, 11}
   Els = {"f64", "f32"}
+  LinUnitExps = {80, 600, 1120}
 INVARIANT Emit
 CHECK_DEADLOCK FALSE
